@@ -1327,3 +1327,28 @@ Lemma ex_table_bundle :
   /\ exists st, show_map nat ex_render ex_show (unparse table_open) (unparse table_close) 9 [(1, 2); (3, 4)] (SFile []) 0 = ODone st
        /\ p_sink st = SFile ([60; 39; 84; 97; 98; 108; 101; 39; 32; 65; 116; 32; 48; 120; 9; 9; 32; 123] ++ [1; 58; 2; 44; 32; 3; 58; 4] ++ [125; 62]).
 Proof. repeat split; try discriminate. eexists. split; vm_compute; reflexivity. Qed.
+
+(* ------------------------------------------------------------------------------------------ *)
+(* the format strings the built-in Show functions use (re-extracted from Array.c, List.c, Tuple.c,
+   Table.c, Tree.c, Num.c) are texts of well-formed item lists, so the theorems above apply to them *)
+Definition list_open : list item :=
+  [Lit [60; 39; 76; 105; 115; 116; 39; 32; 65; 116; 32; 48; 120]; Conv [] [] [] [] 112; Lit [32; 91]].
+Definition tuple_open : list item := [Lit [116; 117; 112; 108; 101; 40]].
+Definition tuple_close : list item := [Lit [41]].
+Definition tree_open : list item :=
+  [Lit [60; 39; 84; 114; 101; 101; 39; 32; 65; 116; 32; 48; 120]; Conv [] [] [] [] 112; Lit [32; 123]].
+Definition int_show_items : list item := [Conv [] [] [] [108] 105].      (* %li *)
+Definition float_show_items : list item := [Conv [] [] [] [] 102].       (* %f *)
+
+Definition show_format_ok (items : list item) (text : list byte) : Prop :=
+  wf_items items = true /\ unparse items = text.
+
+Lemma builtin_show_formats :
+  (show_format_ok array_open array_show_open /\ show_format_ok array_close array_show_close /\ array_show_shape_ok = true)
+  /\ (show_format_ok list_open list_show_open /\ show_format_ok array_close list_show_close /\ list_show_shape_ok = true)
+  /\ (show_format_ok tuple_open tuple_show_open /\ show_format_ok tuple_close tuple_show_close /\ tuple_show_shape_ok = true)
+  /\ (show_format_ok table_open table_show_open /\ show_format_ok table_close table_show_close /\ table_show_shape_ok = true)
+  /\ (show_format_ok tree_open tree_show_open /\ show_format_ok table_close tree_show_close /\ tree_show_shape_ok = true)
+  /\ (show_format_ok int_show_items int_show_fmt /\ conv_kind 105 = KInt)
+  /\ (show_format_ok float_show_items float_show_fmt /\ conv_kind 102 = KFloat).
+Proof. unfold show_format_ok. repeat split. Qed.
